@@ -205,7 +205,15 @@ def schema_ast(draw, max_packages=3, services=True, markers=True):
                             "comment": draw(st.sampled_from(["", "rpc comment"])), "deprecated": draw(st.integers(0, 5)) == 0} for mn in mnames]
                 svcs.append({"name": sname, "methods": methods, "comment": draw(st.sampled_from(["", "service comment"]))})
             fobj["services"] = svcs
-    return {"files": files}
+    # the order of the files on protoc's command line and of the import statements (the plugin sees the files
+    # dependencies first, otherwise in command-line order)
+    return {"files": files, "order": draw(st.sampled_from([None, None, "reversed"]))}
+
+
+class Files(dict):
+    """{file name: text} plus the command-line order gen.compile_files is to use."""
+
+    order = None
 
 
 # --------------------------------------------------------------------------- rendering
@@ -268,7 +276,8 @@ def _render_msg(m, indent):
 
 def render(ast) -> Dict[str, str]:
     """{file name: .proto text}"""
-    out = {}
+    out = Files()
+    out.order = ast.get("order")
     by_pkg_defs = {f["package"]: f["name"] for f in ast["files"] if f["role"] == "defs"}
     for f in ast["files"]:
         body = ""
@@ -291,6 +300,6 @@ def render(ast) -> Dict[str, str]:
         head = 'syntax = "proto3";\n'
         if f["package"]:
             head += f"package {f['package']};\n"
-        head += "".join(f'import "{i}";\n' for i in sorted(imports))
+        head += "".join(f'import "{i}";\n' for i in sorted(imports, reverse=ast.get("order") == "reversed"))
         out[f["name"]] = head + "\n" + body
     return out
